@@ -95,6 +95,22 @@ def ortho_machines():
                      ("process", 6, 4, val, [])])
     return [("ortho_codes", md, opss)]
 
+def defer_code_machines():
+    """a submachine with two regions: one active state defers e4, the other has a guarded row on e4; the enclosing machine
+    has a guarded row on e4 from the submachine state: the submachine answers DEFERRED, DEFERRED|GUARD_REJECT or
+    DEFERRED|TRUE and the enclosing row must not be tried in any of them (all valuations)"""
+    sub = machine([state(zone=0, defers=[4]), state(zone=0), state(zone=1), state(zone=1)], [0, 2],
+                  [row(10, 0, 5, 1), row(11, 2, 4, 3, guard=True, act="call"), row(12, 1, 5, 0), row(13, 3, 5, 2),
+                   row(14, 1, 4, 0, act="call")])
+    root = machine([state(sub=sub, zone=0), state(zone=0)], [0],
+                   [row(1, 0, 4, 1, guard=True, act="call"), row(2, 1, 5, 0), row(3, 0, 6, 1, act="call")])
+    md = mdef(root, 3)
+    opss = []
+    for val in all_valuations(guards_of(md), 16):
+        opss.append([("start", [], []), ("process", 4, 1, val, []), ("process", 5, 2, val, []), ("process", 4, 3, val, []),
+                     ("process", 5, 4, val, []), ("process", 6, 5, val, [])])
+    return [("defer_codes", md, opss)]
+
 def block_machines():
     """a region enters a terminate / interrupt state on an event to which later regions react as well"""
     out = []
@@ -119,6 +135,18 @@ def block_machines():
     opss = [[("start", [], []), ("process", 4, 1, val, []), ("process", 6, 2, val, []), ("process", 7, 3, val, []),
              ("process", 5, 4, val, []), ("process", 6, 5, val, [])] for val in ([], [4])]
     out.append(("ortho_terminate_and_interrupt", md, opss))
+    # while region 1 is interrupted (resp. terminated), region 0's active state lists e7 as deferred: e7 must be swallowed,
+    # not stored - it may not come back after the interrupt ended and the deferring state was left
+    for name, kind in (("interrupt_defer", ["intr", 6]), ("terminate_defer", "term")):
+        m = machine([state(zone=0, defers=[7]), state(zone=0), state(zone=1), state(kind=kind, zone=1)], [0, 2],
+                    [row(1, 0, 5, 1, act="call"), row(2, 1, 7, "none", act="call"), row(3, 1, 5, 0, act="call"),
+                     row(4, 2, 4, 3, act="call")] + ([row(5, 3, 6, 2, act="call")] if kind != "term" else []))
+        md = mdef(m, 4)
+        opss = [[("start", [], []), ("process", 7, 1, [], []), ("process", 4, 2, [], []), ("process", 7, 3, [], []),
+                 ("process", 6, 4, [], []), ("process", 5, 5, [], []), ("process", 7, 6, [], []), ("process", 5, 7, [], [])],
+                [("start", [], []), ("process", 4, 1, [], []), ("process", 7, 2, [], []), ("process", 7, 3, [], []),
+                 ("process", 6, 4, [], []), ("process", 5, 5, [], [])]]
+        out.append((name, md, opss))
     return out
 
 def pseudo_machines():
@@ -127,7 +155,34 @@ def pseudo_machines():
     md = mdef(root, 4)
     ops = [("start", [], []), ("process", 4, 1, [], []), ("process", 6, 2, [], []), ("process", 5, 3, [], []),
            ("process", 6, 4, [], []), ("process", 7, 5, [], [])]
-    return [("exitpt_outside", md, [ops])]
+    out = [("exitpt_outside", md, [ops])]
+    # the enclosing machine's only row on e6 leaves through an exit point; inside, the row on e6 is guarded: with the guard
+    # false the call must answer "guard rejected" (no no_transition) although the enclosing row is not enabled; a second
+    # region of the enclosing machine stays idle
+    sub = machine([state(), state(), state(kind=["exitpt", 6])], [0],
+                  [row(10, 0, 5, 1), row(11, 1, 6, 2, guard=True, act="call"), row(12, 1, 7, "none", guard=True, act="call")])
+    root = machine([state(zone=0), state(sub=sub, zone=0), state(zone=1)], [0, 2],
+                   [row(1, 0, 4, 1), row(2, 1, 6, 0, act="call", exitpt=2), row(3, 1, 7, 0, guard=True, act="call")])
+    md = mdef(root, 4)
+    opss = []
+    for val in ([], [11], [12], [3], [3, 12]):
+        opss.append([("start", [], []), ("process", 4, 1, val, []), ("process", 6, 2, val, []), ("process", 5, 3, val, []),
+                     ("process", 7, 4, val, []), ("process", 6, 5, val, []), ("process", 6, 6, val, []), ("process", 5, 7, val, [])])
+    out.append(("exitpt_codes", md, opss))
+    # a one-region machine around a three-region submachine with one exit point per region: leaving through each of them
+    sub = machine([state(zone=0), state(kind=["exitpt", 6], zone=0), state(zone=1), state(kind=["exitpt", 8], zone=1),
+                   state(zone=2), state(kind=["exitpt", 10], zone=2)], [0, 2, 4],
+                  [row(10, 0, 5, 1, act="call"), row(11, 2, 7, 3, act="call"), row(12, 4, 9, 5, act="call")])
+    root = machine([state(), state(sub=sub)], [0],
+                   [row(1, 0, 4, 1), row(2, 1, 6, 0, act="call", exitpt=1), row(3, 1, 8, 0, act="call", exitpt=3),
+                    row(4, 1, 10, 0, act="call", exitpt=5)])
+    md = mdef(root, 8)
+    opss = []
+    for trig, other in ((5, 8), (7, 10), (9, 6)):
+        opss.append([("start", [], []), ("process", 4, 1, [], []), ("process", other, 2, [], []), ("process", trig, 3, [], []),
+                     ("process", 4, 4, [], []), ("process", trig, 5, [], [])])
+    out.append(("exitpt_regions", md, opss))
+    return out
 
 def fork_machines():
     """a fork that names two of three regions; the third region must follow the history policy on every re-entry"""
@@ -165,6 +220,20 @@ def throw_machines():
                    ("process", 6, 4, val, []), ("process", 4, 5, val, []), ("process", 5, 6, val, [])]
             opss.append(ops)
     out.append(("throw_positions", md, opss))
+    # the same step with a throw at position k; exception_caught (the next behaviour invocation) submits an event, with
+    # fsm.process_event or enqueue_event; in a third variant the behaviour before the throw has already submitted one:
+    # both must be stored while the step is aborted and dispatched afterwards, oldest first
+    opss = []
+    for k in range(0, 8):
+        for how in ("proc", "enq"):
+            for earlier in (False, True):
+                if earlier and k == 0:
+                    continue
+                plan = ([(k - 1, ("proc", 6, 40 + k))] if earlier else []) + [(k, ("throw",)), (k + 1, (how, 5, 50 + k))]
+                ops = [("start", [], []), ("process", 4, 1, val, plan), ("process", 5, 2, val, []), ("process", 6, 3, val, []),
+                       ("process", 4, 4, val, [])]
+                opss.append(ops)
+    out.append(("throw_then_submit", md, opss))
     return out
 
 def throw_nested_machines():
@@ -258,7 +327,7 @@ def rowkind_machines():
 def main():
     os.makedirs(os.path.join(VERIF, "corpus"), exist_ok=True)
     n = 0
-    for name, md, opss in fwd_machines() + ortho_machines() + block_machines() + pseudo_machines() + fork_machines() + throw_machines() + throw_nested_machines() + copy_history_machines() + rowkind_machines():
+    for name, md, opss in fwd_machines() + ortho_machines() + defer_code_machines() + block_machines() + pseudo_machines() + fork_machines() + throw_machines() + throw_nested_machines() + copy_history_machines() + rowkind_machines():
         save(name, md, opss)
         n += 1
     print("wrote %d corpus machines" % n)
